@@ -99,7 +99,7 @@ func childClients(kind string, peerPort int) {
 	ipc := &client.IPClient{Log: discard, InterleavedMode: true}
 	csc := &client.CSPTPClientIP{Log: discard}
 	for in.Scan() { // one line = one attempt
-		cctx, cancel := context.WithTimeout(ctx, 400*time.Millisecond)
+		cctx, cancel := context.WithTimeout(ctx, 150*time.Millisecond)
 		var err error
 		switch kind {
 		case "ntp":
@@ -349,7 +349,7 @@ func exec1(t []string) string {
 			if len(t) > 3 && t[3] == "close" {
 				conn.CloseWrite()
 			}
-			conn.SetReadDeadline(time.Now().Add(150 * time.Millisecond))
+			conn.SetReadDeadline(time.Now().Add(60 * time.Millisecond))
 			io.Copy(io.Discard, conn)
 			conn.Close()
 		}
@@ -458,9 +458,34 @@ func mutateBytes(b []byte, spec []string) []byte {
 	return b
 }
 
+// ensurePeers lazily binds the scripted peers' sockets (so that -replay of a single op works).
+func ensurePeers(kind string) bool {
+	if peerNTP == nil {
+		peerNTP, _ = net.ListenUDP("udp", &net.UDPAddr{IP: net.ParseIP("127.0.0.1")})
+	}
+	if kind != "csptp" {
+		return peerNTP != nil
+	}
+	if srv != nil && srv.alive() {
+		srv.kill() // the real CSPTP listener holds 319/320
+	}
+	for try := 0; try < 20 && (peerEv == nil || peerGen == nil); try++ {
+		if peerEv == nil {
+			peerEv, _ = net.ListenUDP("udp", &net.UDPAddr{IP: net.ParseIP("127.0.0.1"), Port: 319})
+		}
+		if peerGen == nil {
+			peerGen, _ = net.ListenUDP("udp", &net.UDPAddr{IP: net.ParseIP("127.0.0.1"), Port: 320})
+		}
+		if peerEv == nil || peerGen == nil {
+			time.Sleep(50 * time.Millisecond)
+		}
+	}
+	return peerNTP != nil && peerEv != nil && peerGen != nil
+}
+
 func clientAttempt(cp **child, kind, mode string, payload []byte) string {
-	if kind == "csptp" && (peerEv == nil || peerGen == nil) {
-		return "skip csptp-ports-unavailable"
+	if !ensurePeers(kind) {
+		return "skip " + kind + "-peer-ports-unavailable"
 	}
 	if *cp == nil || !(*cp).alive() {
 		c, err := startChild("client-"+kind, strconv.Itoa(peerNTP.LocalAddr().(*net.UDPAddr).Port))
@@ -528,10 +553,8 @@ func hexs(b []byte) string { return lib.Hex(b) }
 
 func gen(c *lib.Ctx) {
 	r := c.Rand
-	var err error
-	peerNTP, err = net.ListenUDP("udp", &net.UDPAddr{IP: net.ParseIP("127.0.0.1")})
-	if err != nil {
-		c.NotExecuted("socket-level run: cannot bind loopback UDP: " + err.Error())
+	if !ensurePeers("ntp") {
+		c.NotExecuted("socket-level run: cannot bind loopback UDP")
 		return
 	}
 	if e := ensureServers(); e != nil {
@@ -543,6 +566,7 @@ func gen(c *lib.Ctx) {
 		cliNTP.kill()
 		cliCSPTP.kill()
 	}()
+	_ = r
 	do := func(sig, op string) {
 		ans := c.Do(op)
 		c.Count(strings.Fields(op)[0] + ":" + strings.Fields(ans)[0])
@@ -557,7 +581,7 @@ func gen(c *lib.Ctx) {
 			}
 		}
 	}
-	n := c.Scale(25, 300)
+	n := c.Scale(12, 300)
 
 	// --- NTP/NTS listener: raw datagrams
 	c.Comment("NTP listener: lengths, first bytes, extension-field shapes")
@@ -628,7 +652,7 @@ func gen(c *lib.Ctx) {
 	rec := func(typ uint16, body []byte) []byte { return ext(typ, uint16(len(body)), body) }
 	good := append(append(rec(0x8001, []byte{0, 0}), rec(0x8004, []byte{0, 15})...), rec(0x8000, nil)...)
 	do("ke", "net.ke ntske/1 "+hexs(good))
-	for cut := 0; cut <= len(good); cut++ {
+	for cut := 0; cut <= len(good); cut += c.Scale(3, 1) {
 		do("ke-trunc", "net.ke ntske/1 "+hexs(good[:cut])+" close")
 	}
 	for _, alpn := range []string{"h2", "ntske/2"} {
@@ -664,7 +688,7 @@ func gen(c *lib.Ctx) {
 	sync := make([]byte, csptp.MinMessageLength)
 	csptp.EncodeMessage(sync, &m)
 	for _, port := range []int{319, 320} {
-		for l := 0; l <= 100; l += 1 + l/10 {
+		for l := 0; l <= 100; l += 1 + l/c.Scale(4, 10) {
 			b := make([]byte, l)
 			copy(b, sync)
 			if l >= 4 {
@@ -685,7 +709,6 @@ func gen(c *lib.Ctx) {
 
 	// --- NTP client against a scripted peer
 	c.Comment("NTP client: crafted replies")
-	srv.kill() // free 319/320 for the scripted CSPTP peer below; the NTP client talks to peerNTP
 	reply := func() []byte {
 		var p ntp.Packet
 		p.SetVersion(4)
@@ -721,20 +744,11 @@ func gen(c *lib.Ctx) {
 
 	// --- CSPTP client against a scripted peer on 319/320
 	c.Comment("CSPTP client: crafted datagrams")
-	for try := 0; try < 20 && (peerEv == nil || peerGen == nil); try++ {
-		time.Sleep(50 * time.Millisecond)
-		if peerEv == nil {
-			peerEv, _ = net.ListenUDP("udp", &net.UDPAddr{IP: net.ParseIP("127.0.0.1"), Port: 319})
-		}
-		if peerGen == nil {
-			peerGen, _ = net.ListenUDP("udp", &net.UDPAddr{IP: net.ParseIP("127.0.0.1"), Port: 320})
-		}
-	}
-	if peerEv == nil || peerGen == nil {
+	if !ensurePeers("csptp") {
 		c.NotExecuted("CSPTP client run: ports 319/320 unavailable")
 	} else {
 		for _, port := range []string{"319", "320"} {
-			for l := 0; l <= 98; l += 1 + l/12 {
+			for l := 0; l <= 98; l += 1 + l/c.Scale(3, 12) {
 				b := make([]byte, l)
 				if l >= 4 {
 					binary.BigEndian.PutUint16(b[2:], uint16(l))
@@ -744,6 +758,9 @@ func gen(c *lib.Ctx) {
 				if l >= 1 && l < 44 {
 					b2 := make([]byte, l)
 					b2[0] = csptp.MessageTypeFollowUp
+					if l >= 4 {
+						binary.BigEndian.PutUint16(b2[2:], uint16(l)) // length field equal to the datagram's length
+					}
 					do("cli-csptp-short", "cli.csptp "+port+" "+hexs(b2))
 				}
 			}
